@@ -856,8 +856,8 @@ def check(ctx) -> Result:
             dispatch(ctx, res, dict(c))
             res.tally('corpus')
         check_pw_errors(ctx, res, rng)
-        stream(ctx, res, rng, n_pw=ctx.n(40, 600), n_box=ctx.n(2, 25), n_dist=ctx.n(24, 300), n_seg=ctx.n(15, 250),
-               n_corr=ctx.n(25, 400), n_int=ctx.n(4, 40))
+        stream(ctx, res, rng, n_pw=ctx.n(150, 4000), n_box=ctx.n(5, 80), n_dist=ctx.n(60, 2000), n_seg=ctx.n(50, 1500),
+               n_corr=ctx.n(80, 2500), n_int=ctx.n(8, 120))
         ctx.batch.flush()
     return res
 
